@@ -340,6 +340,105 @@ MCNext == Next /\\ want' = WantOf(start', arcs')
         raise core.Machinery('oid replay self-test failed')
     ctx.extra['oid'] = '%d histories of spec/Oid.tla replayed into univ.ObjectIdentifier (arcs, text, ==, isPrefixOf, in, index)' % len(states)
 
+
+# ------------------------------------------------------------------------------------ character strings (spec/CharStr.tla)
+CHAR_TYPES = {'ascii': ['NumericString', 'PrintableString', 'IA5String', 'VisibleString', 'ISO646String'],
+              'latin1': ['TeletexString', 'T61String', 'VideotexString', 'GraphicString', 'GeneralString'],
+              'utf8': ['UTF8String'], 'utf16': ['BMPString'], 'utf32': ['UniversalString']}
+
+
+def char_replay(state):
+    from pyasn1 import error
+    from pyasn1.type import char
+    from pyasn1.codec.der import decoder as der_dec, encoder as der_enc
+    out = []
+    text = ''.join(chr(c) for c in state['text'])
+    want = state['want']
+    for tn in CHAR_TYPES[state['enc']]:
+        cls = getattr(char, tn)
+        try:
+            v = cls(text)
+            try:
+                o = list(v.asOctets())
+                if not want['ok']:
+                    out.append('%s(%r).asOctets() -> %s, model: not encodable' % (tn, text, bytes(o).hex()))
+                elif o != want['o']:
+                    out.append('%s(%r).asOctets() -> %s, model %s' % (tn, text, bytes(o).hex(), bytes(want['o']).hex()))
+                elif list(v.asNumbers()) != o:
+                    out.append('%s asNumbers differs from asOctets' % tn)
+            except error.PyAsn1Error:
+                if want['ok']:
+                    out.append('%s(%r).asOctets() refused, model %s' % (tn, text, bytes(want['o']).hex()))
+            if want['ok']:
+                w = cls(bytes(want['o']))
+                if str(w) != text or w != v or len(w) != len(text) or [ord(x) for x in w] != state['text']:
+                    out.append('%s(octets) reads back %r, model %r' % (tn, str(w), text))
+                # through the DER codec
+                b = der_enc.encode(v)
+                r, rest = der_dec.decode(b, asn1Spec=cls())
+                if rest or str(r) != text or list(r.asOctets()) != want['o']:
+                    out.append('%s DER round trip gives %r' % (tn, str(r)))
+            # damaged octet strings: the model's strict decoder says which ones are texts
+            for d in state['damaged']:
+                try:
+                    w = cls(bytes(d['o']))
+                    got = [ord(x) for x in str(w)]
+                    if not d['ok']:
+                        out.append('%s(%s) accepted as %r, model: not a %s string' % (tn, bytes(d['o']).hex(), str(w), state['enc']))
+                    elif got != d['cps']:
+                        out.append('%s(%s) reads %s, model %s' % (tn, bytes(d['o']).hex(), got, d['cps']))
+                except error.PyAsn1Error:
+                    if d['ok']:
+                        out.append('%s(%s) refused, model reads %s' % (tn, bytes(d['o']).hex(), d['cps']))
+        except Exception as e:   # noqa
+            out.append('%s crash %s: %s' % (tn, type(e).__name__, e))
+    return out
+
+
+def char_part(ctx, sc):
+    maxlen = 2 if ctx.quick else 3
+    with open(sc.file('MC_char.tla'), 'w') as f:
+        f.write("""---- MODULE MC_char ----
+EXTENDS CharStr
+VARIABLES want, damaged
+E == Encode(enc, text)
+(* the encoding cut one octet short, with one octet dropped from the front, and with the last octet's top bit flipped *)
+Damage(o) == IF Len(o) = 0 THEN <<>> ELSE
+             << SubSeq(o, 1, Len(o) - 1), SubSeq(o, 2, Len(o)), [o EXCEPT ![Len(o)] = (o[Len(o)] + 128) % 256] >>
+Judge(o) == LET d == Decode(enc, o) IN [o |-> o, ok |-> d.ok, cps |-> IF d.ok THEN d.cps ELSE <<>>]
+MCInit == Init /\\ want = (IF E.ok THEN [ok |-> TRUE, o |-> E.o] ELSE [ok |-> FALSE, o |-> <<>>])
+               /\\ damaged = (IF E.ok THEN [i \\in 1..Len(Damage(E.o)) |-> Judge(Damage(E.o)[i])] ELSE <<>>)
+MCNext == UNCHANGED <<enc, text, want, damaged>>
+====
+""")
+    with open(sc.file('MC_char.cfg'), 'w') as f:
+        f.write('INIT MCInit\nNEXT MCNext\nCONSTANT MaxLen = %d\nINVARIANT RoundTrip\nINVARIANT EncodableIffInRange\nCHECK_DEADLOCK FALSE\n' % maxlen)
+    dump = sc.file('char.dump')
+    r = tlc.run(sc.file('MC_char.tla'), sc.file('MC_char.cfg'), sc, dump=dump, timeout=3000)
+    ctx.add_tlc('CharStr machine (texts of <= %d code points x 5 encodings)' % maxlen, r)
+    if not r.ok:
+        raise core.Machinery('CharStr model run failed: %s %s\n%s' % (r.violated, r.errors[:2], r.out[-1500:]))
+    states = list(tlaval.parse_dump(open(dump).read()))
+    os.remove(dump)
+    states.sort(key=lambda s: json.dumps(s, sort_keys=True))
+    res = core.pmap(char_replay, states, chunksize=256)
+    bad = 0
+    for s, divs in zip(states, res):
+        ctx.evaluations += 1
+        if divs:
+            bad += 1
+            ctx.report('character strings (%s): text %s: %s' % (s['enc'], s['text'], '; '.join(divs[:3])),
+                       {'clause': 'CharStr', 'part': 'char', 'enc': s['enc']},
+                       {'prop': 'C14', 'kind': 'char', 'state': s, 'divergences': divs})
+    ctx.traces += len(states) - bad
+    ctx.keys.add(('char', len(states)))
+    flipped = json.loads(json.dumps(next(s for s in states if s['want']['ok'] and s['want']['o'])))
+    flipped['want']['o'][-1] ^= 1
+    if not char_replay(flipped):
+        raise core.Machinery('char replay self-test failed')
+    ctx.extra['char'] = ('%d (text, encoding) states of spec/CharStr.tla replayed into the 13 restricted character string types '
+                         '(text -> octets, octets -> text, DER round trip, damaged octets vs the strict decoders)' % len(states))
+
 def run(ctx):
     with tlc.Scratch('c14') as sc:
         depth = 1 if ctx.quick else 2
@@ -374,6 +473,7 @@ def run(ctx):
         ctx.extra['replay_selftest'] = 'flipped model verdict detected'
         bitstr_part(ctx, sc)
         oid_part(ctx, sc)
+        char_part(ctx, sc)
     ctx.rule = ('every state of the generator machine spec/Constraint.tla: (expression tree of depth <= %d over single value, range, '
                 'size, alphabet, intersection, union, exclusion) x candidate values around every boundary; derivation chains '
                 'T0 -> c1 -> c2; value-producing operations (+ - * // %% neg abs << >> ** ; concatenation, slicing, repetition; '
